@@ -263,7 +263,7 @@ def first_refusals(trace, badlines):
                         lost[a] = fn
             if i in want and not hit:
                 hit = True
-                ctx = sorted(set(lost[a] for a in live if a in lost))
+                ctx = sorted(set(lost.get(a, "never(still-referenced)") for a in live))
                 out[i] = (reset, list(ops), fn, ctx)
     return out
 
